@@ -178,6 +178,16 @@ def _run_case(case):
                 p.remove_parameter(k)
         for k, v in params.items():
             p.add_parameter(k, v)
+        if case.get("plist") == 3:
+            # the caller inspects the product first and edits what build() handed out (its own copy): the experiment runs the
+            # declared product all the same
+            peek = p.build()
+            if isinstance(peek, list):
+                for d_ in peek:
+                    if isinstance(d_, dict):
+                        d_["a"] = 99
+                peek.reverse()
+                del peek[:1]
     kw = {"collectors": coll, "processes": procs, "repetitions": reps}
     if case.get("coll_tuple") and isinstance(coll, list):
         kw["collectors"] = tuple(coll)                 # any Iterable of names is documented to work
@@ -300,13 +310,13 @@ def strategy(tier):
     long_batch = near_pow2(33, 130).flatmap(lambda n: st.fixed_dictionaries({
         "a": st.just(list(range(n))), "b": st.just(0), "stop": st.sampled_from([1, 2]), "cost": st.just(0), "reps": st.sampled_from([1, 1, 2]),
         "processes": st.sampled_from([1, 2, 3, 4, maxp]), "max_timesteps": st.sampled_from([None, 1]),
-        "collectors": st.sampled_from(["rec", ["pre", "rec"]]), "plist": st.sampled_from([False, True, True, 2]), "coll_tuple": st.booleans(),
+        "collectors": st.sampled_from(["rec", ["pre", "rec"]]), "plist": st.sampled_from([False, True, True, 2, 3]), "coll_tuple": st.booleans(),
         "fail": st.one_of(st.none(), st.none(), st.integers(0, 129)), "fail_where": st.sampled_from(["ctor", "system"]),
         "fail_exc": st.sampled_from(["injected", "stopiteration"])}))
     small = _small(maxp)
     slow = st.fixed_dictionaries({"a": st.just([0, 1, 2]), "b": st.sampled_from([0, [0, 1]]), "stop": st.sampled_from([1, 2]), "cost": st.just(0),
                                   "reps": st.sampled_from([1, 2]), "processes": st.sampled_from([2, 3, 4]), "max_timesteps": st.sampled_from([None, 1]),
-                                  "collectors": st.sampled_from(["rec", ["pre", "rec"]]), "plist": st.sampled_from([False, True, True, 2]), "slow": st.integers(0, 5),
+                                  "collectors": st.sampled_from(["rec", ["pre", "rec"]]), "plist": st.sampled_from([False, True, True, 2, 3]), "slow": st.integers(0, 5),
                                   "slow_ms": st.sampled_from([1150, 1300, 2100]), "fail": st.one_of(st.none(), st.none(), st.integers(0, 5)),
                                   "fail_where": st.just("ctor"), "fail_exc": st.just("injected")})
     return wone_of(*([small] * 44 + [long_batch] * 4 + [slow]))
@@ -323,7 +333,7 @@ def _small(maxp):
         "processes": wone_of(st.just(1), st.integers(2, maxp), st.integers(2, maxp), st.integers(2, 3)),
         "max_timesteps": wone_of(st.none(), st.integers(0, 8)),
         "collectors": st.sampled_from(["rec", "rec", ["pre", "rec"], ["pre", "rec"], ["rec"], ["rec", "rec2"], "none", "invalid"]),
-        "plist": st.sampled_from([False, True, True, 2]), "coll_tuple": st.booleans(),
+        "plist": st.sampled_from([False, True, True, 2, 3]), "coll_tuple": st.booleans(),
         "fail": wone_of(st.none(), st.none(), st.none(), st.none(), st.integers(0, 11)),
         "fail_where": st.sampled_from(["ctor", "system"]),
         "fail_exc": st.sampled_from(["injected", "injected", "stopiteration", "keyerror", "systemexit-free", "modelcomplete"]),
